@@ -96,9 +96,9 @@ fn send_step(cancelled: bool, with_pdus: bool) {
     forget(t);
     forget(ch);
 }
-//# funcs=SendTransaction::send_pdu(SendEof),handle_timeout,handle_fault,has_pdu_to_send,until_timeout; bound=sender after its EOF was sent; a timeout tick at +0..7 s; stubs=S1,S2,S3
+//# funcs=SendTransaction::send_pdu(SendEof),handle_timeout,handle_fault,has_pdu_to_send,until_timeout; bound=sender after its EOF was sent; a timeout tick at +0..7 s; stubs=S1,S2,S3; nocover=ACK(EOF) received
 th!(c03_q_send_after_eof_timeout, 10, { send_step(false, false) });
-//# funcs=SendTransaction::send_pdu(Cancelled),handle_timeout,abandon,has_pdu_to_send,until_timeout; bound=cancelled sender after EOF(cancel) was sent; a timeout tick at +0..7 s; stubs=S1,S2,S3
+//# funcs=SendTransaction::send_pdu(Cancelled),handle_timeout,abandon,has_pdu_to_send,until_timeout; bound=cancelled sender after EOF(cancel) was sent; a timeout tick at +0..7 s; stubs=S1,S2,S3; nocover=ACK(EOF) received
 th!(c03_q_send_after_cancel_eof_timeout, 10, { send_step(true, false) });
 //# funcs=SendTransaction::process_pdu(Ack|KeepAlive),handle_timeout; bound=sender after EOF; one step: ACK(EOF) | timeout | keep-alive (may be inconclusive: the NAK arm of process_pdu is executed on garbage); stubs=S1,S2,S3,S6
 th!(#[kani::stub(<std::hash::DefaultHasher as std::hash::Hasher>::finish, crate::c07::hasher_finish_stub)] c03_t_send_after_eof_pdus, 5, { send_step(false, true) });
